@@ -56,6 +56,11 @@ type c19Env struct {
 	stressBLS  hash.Hasher
 }
 
+var (
+	c19ColdMu      sync.Mutex
+	c19ColdFailure string
+)
+
 func init() {
 	register(&Prop{
 		ID:        "C19",
@@ -199,6 +204,14 @@ func (env *c19Env) apply(o c19Op) string {
 	}
 	nb := len(env.sks)
 	switch o.Op {
+	case "cold":
+		if r := c19ColdRun(env.in.Seed); r != "cold-ok" {
+			c19ColdMu.Lock()
+			c19ColdFailure = r
+			c19ColdMu.Unlock()
+			return r
+		}
+		return "cold-ok"
 	case "stress":
 		// many goroutines, DISTINCT short inputs, one shared hasher / key: every call must return what it
 		// returns alone (a shared scratch buffer inside the hasher would mix the inputs up)
@@ -298,6 +311,9 @@ func (env *c19Env) apply(o c19Op) string {
 				return "stress-remove-failed"
 			}
 			fsk, _ := crypto.DecodePrivateKey(crypto.BLSBLS12381, skb)
+			// PublicKey() of a private key is not among the operations C19 lists (it fills a cache in
+			// the private key without synchronisation): derive the key object before the goroutines start
+			fpk := fsk.PublicKey()
 			start := make(chan struct{})
 			for g := 0; g < G; g++ {
 				wg.Add(1)
@@ -316,7 +332,7 @@ func (env *c19Env) apply(o c19Op) string {
 					case 2:
 						ok, err = crypto.BLSVerifyPOP(one, popb) // same point as pks[0], another object
 					case 3:
-						ok, err = fsk.PublicKey().Verify(sigAlone, msg, env.stressBLS)
+						ok, err = fpk.Verify(sigAlone, msg, env.stressBLS)
 					}
 					if !ok || err != nil {
 						mu.Lock()
@@ -460,6 +476,9 @@ func c19Gen(tier string, r *rand.Rand) []Case {
 		if k%3 == 0 {
 			in.Ops = append(in.Ops, c19Op{Op: "stress"})
 		}
+		if k%6 == 1 {
+			in.Ops = append(in.Ops, c19Op{Op: "cold"})
+		}
 		cs = append(cs, mkcase("mix", in))
 	}
 	return cs
@@ -549,6 +568,13 @@ func c19Run(c Case) (Result, error) {
 			cc = d8([]byte(cc))
 		}
 		items = append(items, fmt.Sprintf("mkOp %s %s %s %s %s", cqs(in.Ops[i].Op), cqs(before[i]), cqs(after[i]), cqs(sq), cqs(cc)))
+	}
+	c19ColdMu.Lock()
+	cf := c19ColdFailure
+	c19ColdFailure = ""
+	c19ColdMu.Unlock()
+	if cf != "" {
+		return Result{}, implViolation("first signature operations of a fresh process issued concurrently: %s", cf)
 	}
 	term := fmt.Sprintf("mkCase %s %s %s", cqlist(items), cqs(snapDigest(env0)), cqs(snapDigest(env1)))
 	return Result{Coq: term, Key: string(c.Input), Nontrivial: nontrivial,
